@@ -15,6 +15,8 @@ CLAIMS = {
          "NOT covered: dhcp4_spoofer.ProcessPacket beyond its gate and the dns_naming processors (their loops are driven by x/net dnsmessage.Parser, for which no typestate contract was written); wall-clock bounds are not a contract notion: termination = a decreasing measure per loop and recursion"),
  "C13": ("ProcessPacket: at most one frame, a reply, forged only for a hunt-list sender asking for the router; StartHunt rejects/idempotent/frames other entries, StopHunt removes; spoofLoop: every forged frame goes to a MAC in the hunt list at the moment of the send, the corrective request with the router's real MAC is sent when the target is no longer hunted, nothing is sent after Close",
          "sequential semantics only: 'within one cycle', interleavings of StartHunt/StopHunt with the running goroutine and real time are schedule properties no contract here can state (mutexes are no-ops, go statements are not executed); probe-reject conditions are covered only as 'a reply to the requester'"),
+ "C14": ("Handler6.StartHunt rejects IPv4, ignores non link-local targets, is idempotent per MAC (no second loop, list unchanged) and sends nothing itself; StopHunt removes the entry; the NA spoof loop: every frame it sends is a neighbour advertisement with the override flag, hop limit 255, the host NIC MAC as Ethernet source and as advertised link-layer address, addressed to the loop's own target, and is sent only while that MAC is in the hunt list, the handler is not closed and a router has been learned (per-send predicate, loop invariants over the router snapshot); ProcessPacket keeps the router table well formed (non-nil entries with IPv6 addresses); AddrList.index equals a recursive reference search",
+         "NOT decided: that the router table records flags, preference, lifetimes, prefixes, MTU and DNS options exactly as an independent decoder reads them (every 4th RA only is processed, gated by a package-level counter; the option values are not compared with a reference); 'after StopHunt no further forged advertisement' only as: the loop re-checks membership before each round (sequential semantics; the goroutine hand-over is a schedule property)"),
  "C15": ("Checksum(b) == byte-swapped RFC 1071 checksum for every b up to 65535 bytes: loop invariant against a recursive little-endian word sum, byte-order independence by an inductive ghost-loop lemma over one's-complement addition lemmas (each discharged by bit-blasting)",
          "inputs longer than 65535 bytes excluded (uint32 accumulator); recursive spec functions assumed terminating; header/ICMP sums-to-zero lemmas: see evidence"),
  "C16": ("every view accessor of the 23 view types and of Frame returns a sub-slice of the caller's buffer (same region, offsets inside the view: write-through aliasing is the memory model's meaning of 'same region and offset'); Parse's views of the packet are the buffer itself at the decoded offsets; allocation clause over a ghost allocation counter: for an untagged IPv4/IPv6/ARP frame whose source is indexed in the host table, bound to the same MAC and online, Parse returns with the counter unchanged (fast path of findOrCreateHostWithLock, IP4.IsValid, echoNotify proved allocation-free on their success paths)",
